@@ -1,6 +1,7 @@
 """C08 - handshakes complete only with a peer that proves the certified identity (gmtls, GMSSL ECC suites)."""
 ID = "C08"
 PROPS = "Props/C08.v"
+COQ_TIMEOUT = 5400   # Coq build of this property incl. rebuilt dependencies; generous: on a loaded machine a rebuild after an upstream edit took > 1500 s
 LEGS = [{"driver": "c08", "runner": ("hs", "Extract/ExtractHS.v", "Hs_model"), "timeout": 3000}]
 
 TECHNIQUE = ("Coq proofs over symbolic (perfect-cryptography) state machines of the gmtls GMSSL client and of the servers, with a Dolev-Yao network attacker; "
